@@ -32,7 +32,8 @@ Record obs := {
   d_calls : list triple;       (* its resolveCb invocations (base, left, right), in order *)
   p_res : dict N;              (* entries of the map returned by MergeMaps *)
   p_calls : dict triple;       (* CollisionFn invocations: key -> (base, left, right) *)
-  p_canon : bool               (* root hash of the result = root hash of the bulk-built map of its entries *)
+  p_canon : bool;              (* root hash of the result = root hash of the bulk-built map of its entries *)
+  p_stream : list patch        (* the patches tree.SendPatches really sent (points and chunk-level ranges, ranges resolved to their entries) *)
 }.
 
 Definition case := (input * obs)%type.
@@ -45,7 +46,8 @@ Definition model_obs (i : input) : obs :=
      d_calls := map snd (tw_calls ld rd);
      p_res := merge_by_patches c (i_base i) (i_left i) (i_right i);
      p_calls := send_calls ld rd;
-     p_canon := true |}.
+     p_canon := true;
+     p_stream := [] |}.
 
 Definition twd_eqb (a b : twd) : bool :=
   let '(o1, r1, m1) := a in let '(o2, r2, m2) := b in (o1 =? o2) && opt_eqb r1 r2 && opt_eqb m1 m2.
@@ -75,6 +77,7 @@ Definition obs_eqb (a b : obs) : bool :=
   && list_eqb (entry_eqb triple_eqb) (p_calls a) (p_calls b)
   && Bool.eqb (p_canon a) (p_canon b).
 
+(* the model does not predict which ranges the generator picks: p_stream is compared by the oracle only *)
 (* The property on the implementation's observation:
    - every key is classified per the declarative rule, nothing else is reported;
    - exactly the divergent keys reached the handler, with (base, left, right), in
@@ -89,7 +92,11 @@ Definition oracle (i : input) (o : obs) : bool :=
   && pointwise (oeqb triple_eqb) keys (p_calls o) (fun k => handler_call (lookup k B) (lookup k L) (lookup k R))
   && list_eqb triple_eqb (d_calls o) (map snd (p_calls o))
   && pointwise (oeqb N.eqb) keys (p_res o) (fun k => merge3_key c (lookup k B) (lookup k L) (lookup k R))
-  && p_canon o.
+  && p_canon o
+  (* the patch stream really sent: every patch stands for point changes (Proofs.patch_ok),
+     the stream covers every point change, and applying it to the left map gives the result *)
+  && stream_okb c B L R keys (p_stream o)
+  && list_eqb (entry_eqb N.eqb) (apply_stream (p_stream o) L) (p_res o).
 
 Definition check_case (c : case) : N :=
   (if obs_eqb (model_obs (fst c)) (snd c) then 0 else 1)
